@@ -283,7 +283,7 @@ func dropKnownPairs(c *sim.Ctx, cfg *concCfg, prop string) {
 
 func (p C06) Run(c *sim.Ctx, t *sim.Tape) sim.RunResult {
 	filtered := !t.Chance(100)
-	cfg := genConc(t, []string{"memfs", "orefafs"}, 4, 3, false)
+	cfg := genConc(t, []string{"memfs", "orefafs"}, 4, 2+deeper(c, t), false)
 
 	if filtered {
 		dropKnownPairs(c, cfg, "C06")
